@@ -47,7 +47,7 @@ func boundsFor(tier string) bounds {
 		return bounds{ArgValues: 0, Amounts: amountSels, Tokens: tokenSels, CapCand: 60000, CapAcc: 160, Bases: []string{"genesis", "entries", "matured"}, AllActors: true,
 			Depth2: true, Depth2CapA: 3, Depth2CapB: 3}
 	}
-	return bounds{ArgValues: 2, Amounts: amountSels[:2], Tokens: tokenSels[:2], CapCand: 4096, CapAcc: 10, Bases: []string{"genesis", "entries"}}
+	return bounds{ArgValues: 2, Amounts: amountSels[:2], Tokens: tokenSels[:2], CapCand: 1024, CapAcc: 6, Bases: []string{"genesis", "entries"}}
 }
 
 // senders per contract in the quick tier (thorough: all six)
@@ -206,12 +206,21 @@ func product(dims []int) int {
 	return p
 }
 
-// shrink drops the last value of the largest dimension (ties: the last one); false when nothing can be dropped.
+// shrink drops the last value of the largest argument dimension (ties: the last argument); the amount and token
+// dimensions (the last two) are only cut when every argument is down to one value. false when nothing can be dropped.
 func shrink(dims []int) bool {
 	best := -1
-	for i, d := range dims {
+	na := len(dims) - 2
+	for i, d := range dims[:na] {
 		if d > 1 && (best < 0 || d >= dims[best]) {
 			best = i
+		}
+	}
+	if best < 0 {
+		for i := len(dims) - 1; i >= na; i-- {
+			if dims[i] > 1 && (best < 0 || dims[i] > dims[best]) {
+				best = i
+			}
 		}
 	}
 	if best < 0 {
@@ -259,9 +268,15 @@ func errClass(err error) string {
 
 // runOne executes one accepted call on a scratch copy of the snapshot.
 func (w *worker) runOne(s *snapshot, id *caseID, g *groupStats) *verdict {
+	t0 := time.Now()
 	pr := s.open(w.c.TempDir(), w.c.TempDir())
-	defer pr.destroy()
+	t1 := time.Now()
 	v := execute(pr, s.Env, id)
+	t2 := time.Now()
+	pr.destroy()
+	w.r.Count("us_open", t1.Sub(t0).Microseconds())
+	w.r.Count("us_execute", t2.Sub(t1).Microseconds())
+	w.r.Count("us_destroy", time.Since(t2).Microseconds())
 	w.account(id, v, g)
 	return v
 }
@@ -322,6 +337,8 @@ func (w *worker) group(s *snapshot, filter *vnode.Node, mr methodRef, actorIdx i
 		}
 		return id
 	}
+	tf := time.Now()
+	defer func() { w.r.Count("ms_group_total", time.Since(tf).Milliseconds()) }()
 	for {
 		id := mk(t)
 		g.gen++
@@ -345,6 +362,7 @@ func (w *worker) group(s *snapshot, filter *vnode.Node, mr methodRef, actorIdx i
 			break
 		}
 	}
+	w.r.Count("ms_filter", time.Since(tf).Milliseconds())
 	count := func() int {
 		k := 0
 		for _, a := range accepted {
@@ -417,7 +435,8 @@ func (w *worker) encodings(s *snapshot, filter *vnode.Node, mr methodRef, actorI
 			id.Enc, id.Raw = e.L, raw
 			g.gen++
 			w.r.Count("encodings_generated", 1)
-			if _, err := id.submit(env, filter, false); err != nil {
+			blk, err := id.submit(env, filter, false)
+			if err != nil {
 				w.r.Add("send_time_refusals", errClass(err))
 				continue
 			}
@@ -427,6 +446,12 @@ func (w *worker) encodings(s *snapshot, filter *vnode.Node, mr methodRef, actorI
 				w.r.Add("noncanonical_accepted_relayed", mr.key()+":"+e.L)
 			} else {
 				w.r.Count("encodings_accepted_generator", 1)
+				if string(blk.Data) == string(data) {
+					// the node's generator re-encoded the call: the block is the canonical twin's, which the product executes
+					w.r.Count("encodings_canonicalised_by_generator", 1)
+					continue
+				}
+				w.r.Add("noncanonical_kept_by_generator", mr.key()+":"+e.L)
 			}
 			if w.c.Expired() {
 				w.r.Incomplete = true
@@ -456,7 +481,9 @@ func run(c *xs.Ctx, r *xs.Result) {
 	for _, b := range w.b.Bases {
 		need[b] = true
 	}
+	tb := time.Now()
 	w.buildBases(need)
+	r.Count("ms_bases", time.Since(tb).Milliseconds())
 	for _, bn := range w.b.Bases {
 		s := w.snaps[bn]
 		if s == nil {
@@ -716,6 +743,12 @@ func finish(tier string, m *xs.Result, ev *xs.Evidence) {
 	}
 	ev.Notes = append(ev.Notes, "groups whose domains were cut by the candidate/accepted caps (dims used of full; order: arguments..., amount, token): "+strings.Join(pruned, "; "))
 	delete(ev.Coverage, "distinct_pruned_groups")
+	var nc []string
+	for e := range m.Sets["noncanonical_accepted_relayed"] {
+		nc = append(nc, e)
+	}
+	sort.Strings(nc)
+	ev.Notes = append(ev.Notes, fmt.Sprintf("non-canonical encodings accepted as relayed blocks (data kept as sent) and executed: %v", nc))
 	ev.Coverage["groups_pruned_by_caps"] = len(m.Sets["pruned_groups"])
 	ev.Coverage["methods_with_accepted_sends"] = len(seen) - len(zero)
 	ev.Coverage["methods_in_tables"] = len(seen)
